@@ -137,14 +137,20 @@ def finding_build(case, obs, why):
 
 
 def shrink_build(case):
+    # every candidate keeps the two vertices of feature 0 that span the bounding box [0,W] x [0,H] the case declares
+    for c in _shrink_build(case):
+        t0 = c['tracks'][0]
+        if [0.0, 0.0] in t0 and [float(case['W']), float(case['H'])] in t0:
+            yield c
+
+
+def _shrink_build(case):
     ts = case['tracks']
     for i in range(1, len(ts)):
         c = dict(case); c['tracks'] = ts[:i] + ts[i + 1:]
         yield c
     for i, t in enumerate(ts):
-        lo = 1 if i == 0 else 0
-        hi = len(t) - 1 if i == 0 else len(t)
-        for k in range(lo, hi):
+        for k in range(len(t)):
             if len(t) > 2:
                 c = dict(case); c['tracks'] = ts[:i] + [t[:k] + t[k + 1:]] + ts[i + 1:]
                 yield c
